@@ -32,6 +32,69 @@ for wi := 0; wi < 3; wi++ {
 }
 `
 
+// Script-level reference implementations of the stdlib functions that call a script function back from Go
+// (on a pooled child VM): same results, same number and order of callback invocations, errors propagate.
+const c14Refs = `
+refIndexFunc := func(s, f) { for i, c in s { if f(c) { return i } }; return -1 }
+refLastIndexFunc := func(s, f) { for i := len(s) - 1; i >= 0; i-- { if f(char(s[i])) { return i } }; return -1 }
+refTrimLeftFunc := func(s, f) { i := 0; for i = 0; i < len(s); i++ { if !f(char(s[i])) { break } }; return s[i:] }
+refTrimRightFunc := func(s, f) { i := 0; for i = len(s); i > 0; i-- { if !f(char(s[i-1])) { break } }; return s[:i] }
+refTrimFunc := func(s, f) { return refTrimRightFunc(refTrimLeftFunc(s, f), f) }
+refFieldsFunc := func(s, f) {
+	out := []
+	cur := ""
+	started := false
+	for i, c in s {
+		if f(c) {
+			if started { out = append(out, cur); cur = ""; started = false }
+		} else {
+			cur += string(c)
+			started = true
+		}
+	}
+	if started { out = append(out, cur) }
+	return out
+}
+refMap := func(f, s) { out := ""; for i, c in s { out += string(f(c)) }; return out }
+`
+
+// c14StdlibSection returns the same statements twice: with the reference implementations and with the strings module.
+func c14StdlibSection(t *sim.Tape) (ref, lib string) {
+	var a, b strings.Builder
+	a.WriteString(c14Refs)
+	b.WriteString("sfm := import(\"strings\")\n")
+	n := 1 + t.Draw(4)
+	strs := []string{`"ab cd"`, `"  xy "`, `"xax"`, `""`, `"a"`, `"bbbb"`, `" a b "`}
+	preds := []string{"c == 'x'", "c == ' '", "c < 'c'", "c != 'a'", "true", "false"}
+	for k := 0; k < n; k++ {
+		fn := []string{"IndexFunc", "LastIndexFunc", "TrimLeftFunc", "TrimRightFunc", "TrimFunc", "FieldsFunc", "Map"}[t.Draw(7)]
+		str := strs[t.Draw(len(strs))]
+		cb := fmt.Sprintf("sfcb%d", k)
+		var def string
+		opCall := ""
+		if t.Bool(2, 3) {
+			opCall = fmt.Sprintf("op(%d); ", t.Draw(4))
+		}
+		if fn == "Map" {
+			def = fmt.Sprintf("%s := func(c) { log(\"cb\", c); %sreturn char(c + %d) }\n", cb, opCall, t.Draw(3))
+		} else {
+			def = fmt.Sprintf("%s := func(c) { log(\"cb\", c); %sreturn %s }\n", cb, opCall, preds[t.Draw(len(preds))])
+		}
+		args := str + ", " + cb
+		if fn == "Map" {
+			args = cb + ", " + str
+		}
+		for _, x := range []struct {
+			sb   *strings.Builder
+			call string
+		}{{&a, "ref" + fn + "(" + args + ")"}, {&b, "sfm." + fn + "(" + args + ")"}} {
+			x.sb.WriteString(def)
+			fmt.Fprintf(x.sb, "try { log(\"sf\", %d, %s) } catch e { log(\"sferr\", %d, e.Message) }\n", k, x.call, k)
+		}
+	}
+	return a.String(), b.String()
+}
+
 func c14Run(rc *sim.RunCtx) {
 	t := rc.T
 	g := newGen(t, genConfig{Modules: true, Hosts: true, Consts: t.Bool(1, 3), CallMark: true, NoTrace: true, MaxStmts: 12})
@@ -47,6 +110,14 @@ func c14Run(rc *sim.RunCtx) {
 	}
 	srcA := renderCalls(src, false)
 	srcB := renderCalls(src, true)
+	stdlibSection := t.Bool(1, 2)
+	if stdlibSection {
+		ra, rb := c14StdlibSection(t)
+		ia, ib := strings.LastIndex(srcA, "return ["), strings.LastIndex(srcB, "return [")
+		srcA = srcA[:ia] + ra + srcA[ia:]
+		srcB = srcB[:ib] + rb + srcB[ib:]
+		rc.Probe("stdlib-callback-section")
+	}
 	mm := newModuleMap(append(append([]srcModule{}, fixedModules...), mods...))
 	noOpt := t.Bool(1, 3)
 	bcA, errA := compile(srcA, mm, noOpt, 0)
@@ -134,7 +205,7 @@ func init() {
 		ID:    "C14",
 		Level: "exploration",
 		Rule: "each run generates one script (closures over counters, fixed and variadic functions, recursive functions, throwing functions, functions that import source/builtin modules and mutate module state and globals; 2/3 of runs start with a warm-up that leaves pooled child VMs behind whose last use returned, threw or failed in a host call) " +
-			"and renders every marked call site twice: f(args) vs call(f, args) (pooled or not, drawn per call) and an in-script loop vs callrep(f, n, args) (one handle, n invocations). Both variants run in the same world; outcome and history must be equal. The pool policy (new / last released / older released VM) is drawn per Acquire. " +
+			"and renders every marked call site twice: f(args) vs call(f, args) (pooled or not, drawn per call) and an in-script loop vs callrep(f, n, args) (one handle, n invocations); half of the runs add a section that calls strings.IndexFunc/LastIndexFunc/Trim*Func/FieldsFunc/Map with script callbacks (which may fail in a host call) next to script-level reference implementations of the same functions. Both variants run in the same world; outcome and history must be equal. The pool policy (new / last released / older released VM) is drawn per Acquire. " +
 			"Non-trivial = at least one invocation through the host happened; distinct = distinct (script, recycle count, failed-invoke count).",
 		Assumptions: []string{"argument tuples always match the callee's arity (lenient Go-side arity is excluded by the property)", "resolved positions are not compared (they legitimately differ); host faults are error returns only"},
 		Real:        []string{"Invoker.Acquire/Invoke/Release", "vmPool._acquire/_release", "VM.Run/initLocals", "compiler"},
